@@ -291,6 +291,24 @@ fn tasks_for(prop: &str, tier: &str, seed: u64) -> Vec<Task> {
         }
         "C04" => {
             let mut out = vec![];
+            // concrete companion: every single-field alteration, negation, round insertion / removal and the
+            // coordinated forgeries (incl. a batch of opposite alterations), natively
+            for (ci, case) in scen_c04::c04_cases(false).into_iter().filter(|c| ["two_gates_A_I1", "two_phase_A_I2", "three_gates_pad4_R0"].contains(&c.name.as_str())).enumerate() {
+                let c = ["secq256k1", "zorro", "curve25519"][(ci + seed as usize) % 3].to_string();
+                let replay = serde_json::json!({"kind": "c04", "case": case, "seed": seed});
+                out.push(Task {
+                    name: format!("C04:native_alterations_{}:{}", case.shape.name, c),
+                    replay: replay.clone(),
+                    run: Box::new(move || {
+                        let checks = match c.as_str() {
+                            "secq256k1" => scen_c04::c04_native::<Secq>(&case, seed),
+                            "zorro" => scen_c04::c04_native::<Zorro>(&case, seed),
+                            _ => scen_c04::c04_native::<Ed>(&case, seed),
+                        };
+                        native_job("C04", &format!("native_alterations_{}", case.shape.name), &c, seed, checks, replay)
+                    }),
+                });
+            }
             for (ci, c) in ["secq256k1", "zorro", "curve25519"].iter().enumerate() {
                 if !thorough && ci != (seed as usize) % 3 {
                     continue;
